@@ -41,6 +41,7 @@ func runC19(c *Ctx) {
 	ruleGuarded(c)
 	ruleAtomic(c, "ATOMIC", nil)
 	ruleLoopVar(c, "LOOPVAR")
+	ruleLookupAcquire(c, "ATOMIC")
 	// "results equal to some sequential order": a clock value read before the collector lock is taken can be older than a
 	// start time a concurrent scrape installs, which no sequential order produces
 	if m := findTT(c, "CLOCK"); m != nil {
@@ -349,4 +350,87 @@ func ruleAtomic(c *Ctx, rule string, only map[string]bool) {
 	if only == nil {
 		c.Floor(rule, "lock acquisitions examined", n, 20)
 	}
+}
+
+// ruleLookupAcquire (C19.ATOMIC): a shared listener looked up in (or added to) a manager's table is acquired inside the
+// critical section that looked it up. The last release of a shared listener removes it from the table; an Acquire that
+// runs after the manager lock was dropped can re-open a listener that has just been removed, and the next lookup then
+// creates a second listener for the same address — an outcome no sequential order of Listen/Close calls produces.
+func ruleLookupAcquire(c *Ctx, rule string) {
+	p, l := c.P, c.L()
+	n := 0
+	for _, m := range findMultiListeners(c, rule) {
+		// the manager types: structs with a map whose values are (interfaces implemented by / pointers to) this listener type
+		mgr := map[string]bool{}
+		for path, pkg := range p.AllPkgs {
+			if pkg.Types == nil || !strings.HasPrefix(path, eng.Mod) {
+				continue
+			}
+			sc := pkg.Types.Scope()
+			for _, name := range sc.Names() {
+				tn, ok := sc.Lookup(name).(*types.TypeName)
+				if !ok {
+					continue
+				}
+				st, ok := tn.Type().Underlying().(*types.Struct)
+				if !ok {
+					continue
+				}
+				hasMu, hasMap := false, false
+				for i := 0; i < st.NumFields(); i++ {
+					ft := st.Field(i).Type()
+					if ts := ft.String(); ts == "sync.Mutex" || ts == "sync.RWMutex" {
+						hasMu = true
+					}
+					if mt, ok := ft.Underlying().(*types.Map); ok {
+						et := mt.Elem()
+						if eng.TypeName(et) == m.T {
+							hasMap = true
+						} else if it, ok := et.Underlying().(*types.Interface); ok {
+							if lt := p.LookupType(m.T); lt != nil && (types.Implements(types.NewPointer(lt), it) || types.Implements(lt, it)) {
+								hasMap = true
+							}
+						}
+					}
+				}
+				if hasMu && hasMap {
+					mgr[eng.Short(path+"."+name)] = true
+				}
+			}
+		}
+		if len(mgr) == 0 {
+			continue
+		}
+		for _, f := range p.Fns {
+			if p.IsTestSupport(f) {
+				continue
+			}
+			r := eng.Root(f)
+			if r.Signature.Recv() == nil || !mgr[eng.TypeName(r.Signature.Recv().Type())] {
+				continue
+			}
+			mt := eng.TypeName(r.Signature.Recv().Type())
+			for _, cl := range eng.Calls(f) {
+				hit := false
+				for _, h := range p.Callees(cl) {
+					if h == m.acquire {
+						hit = true
+					}
+				}
+				if !hit {
+					continue
+				}
+				n++
+				held := l.Held(cl)
+				ok := false
+				for k := range held {
+					if strings.HasPrefix(k, mt+".") {
+						ok = true
+					}
+				}
+				c.CheckAt(rule, short(f)+":acquires-under-the-manager-lock:"+m.T, cl, ok, fmt.Sprintf("%s acquires a shared listener outside the manager's critical section (held: %s): the listener can be released — and dropped from the table — between its lookup and this Acquire", short(f), held))
+			}
+		}
+	}
+	c.Floor(rule, "Acquire calls made by listener-manager methods", n, 2)
 }
